@@ -181,8 +181,25 @@ func c13Battery(g c13Grid, r *table.Reader, pairs []model.Pair, depth int, damag
 		if e := c13Answer(damaged, orig, pairs, idx, rk2, nil, err, true); e != "" {
 			return fmt.Sprintf("FindKey(%q): %s", k, e)
 		}
-		v, err := r.Get(k, nil)
 		want, has := orig[string(k)]
+		if has {
+			// filtered lookups (what the DB issues) are only meaningful for exact matches:
+			// a stored key must never be hidden by the filter / index routing
+			fk, fv, ferr := r.Find(k, true, nil)
+			switch {
+			case ferr == nil:
+				if string(fk) != string(k) || string(fv) != want {
+					return fmt.Sprintf("filtered Find(%q) = %q=%q, stored %q", k, fk, fv, want)
+				}
+			case damaged && (ferr == leveldb.ErrNotFound || errors.IsCorrupted(ferr)):
+			default:
+				return fmt.Sprintf("filtered Find(%q) of a stored key: %v", k, ferr)
+			}
+			if fk2, ferr := r.FindKey(k, true, nil); !damaged && (ferr != nil || string(fk2) != string(k)) {
+				return fmt.Sprintf("filtered FindKey(%q) of a stored key = %q, %v", k, fk2, ferr)
+			}
+		}
+		v, err := r.Get(k, nil)
 		switch {
 		case err == nil:
 			if !has || string(v) != want {
